@@ -277,7 +277,9 @@ func (e *bincEncDriver[T]) EncodeString(v string) {
 func (e *bincEncDriver[T]) EncodeStringNoEscape4Json(v string) { e.EncodeString(v) }
 
 func (e *bincEncDriver[T]) EncodeStringEnc(c charEncoding, v string) {
-	if e.e.c == containerMapKey && c == cUTF8 && (e.h.AsSymbols == 1) {
+	// a side encoder's bytes are spliced into another stream (and may be reordered there):
+	// symbol definitions / references in them would not line up with that stream's table
+	if e.e.c == containerMapKey && c == cUTF8 && (e.h.AsSymbols == 1) && !e.e.side {
 		e.EncodeSymbol(v)
 		return
 	}
